@@ -7,6 +7,7 @@
 (* Events:  New [mstyle, tstyle]                          a new forecaster with bounds of these shapes      *)
 (*          Fit [given, sq, outcome, mq, tq, tau_same, gen_inside, rt_m, rt_tau, opt_e15, eq_e15]           *)
 (*          Cum [M, tau, outcome, agree_e15, lin_e15, resc_e15]                                             *)
+(*          Rebound [mstyle, tstyle, outcome]             the caller assigned other bounds to the object     *)
 EXTENDS Forecast, TraceLib, Quant
 
 VARIABLES l
@@ -39,6 +40,10 @@ StepNew(e) == /\ bnd' = [M |-> e.mstyle, tau |-> e.tstyle]
               /\ fitted' = "none" /\ M_' = Unset /\ tau_' = Unset
               /\ hist' = <<>> /\ obs' = [kind |-> "none"] /\ exp' = <<>>
               /\ UNCHANGED c
+
+\* the caller assigned another Bounds object of these shapes to the `bounds` field
+StepRebound(e) == /\ Rebound([op |-> "rebound", M |-> e.mstyle, tau |-> e.tstyle])
+                  /\ Report(e, IF e.outcome = "ok" THEN {} ELSE {"Outcome"})
 
 StepFit(e) ==
     LET cl == [op |-> "fit", tau |-> IF e.given THEN AbsVal(bnd.tau, e.sq) ELSE NoTau]
@@ -74,6 +79,7 @@ TNext == /\ l <= Len(Trace)
             IN  CASE e.ev = "New" -> StepNew(e)
                   [] e.ev = "Fit" -> StepFit(e)
                   [] e.ev = "Cum" -> StepCum(e)
+                  [] e.ev = "Rebound" -> StepRebound(e)
          /\ l' = l + 1
 
 TraceSpec == TInit /\ [][TNext]_tvars
